@@ -78,39 +78,47 @@ func fromReader(reader io.Reader) (*BlockHeader, error) {
 // WriteTo implements the io.WriterTo interface. Writes the serialized BlockHeader
 // to the given io.Writer.
 func (header *BlockHeader) WriteTo(buf io.Writer) (n int64, err error) {
-	if err = binary.Write(buf, binary.LittleEndian, header.Version); err != nil {
-		return
-	}
-	n += int64(binary.Size(header.Version))
-
-	c, err := buf.Write(common.ReverseBytes(header.PreviousHeaderHash[:]))
+	c, err := writeLE(buf, uint64(uint32(header.Version)), 4)
+	n += int64(c)
 	if err != nil {
 		return
 	}
+
+	c, err = buf.Write(common.ReverseBytes(header.PreviousHeaderHash[:]))
 	n += int64(c)
+	if err != nil {
+		return
+	}
 
 	c, err = buf.Write(common.ReverseBytes(header.MerkleRootHash[:]))
+	n += int64(c)
 	if err != nil {
 		return
 	}
+
+	c, err = writeLE(buf, uint64(header.Time), 4)
 	n += int64(c)
-
-	if err = binary.Write(buf, binary.LittleEndian, header.Time); err != nil {
+	if err != nil {
 		return
 	}
-	n += int64(binary.Size(header.Time))
 
-	if err = binary.Write(buf, binary.LittleEndian, header.NBits); err != nil {
+	c, err = writeLE(buf, uint64(header.NBits), 4)
+	n += int64(c)
+	if err != nil {
 		return
 	}
-	n += int64(binary.Size(header.NBits))
 
-	if err = binary.Write(buf, binary.LittleEndian, header.Nonce); err != nil {
-		return
-	}
-	n += int64(binary.Size(header.Nonce))
-
+	c, err = writeLE(buf, uint64(header.Nonce), 4)
+	n += int64(c)
 	return
+}
+
+// writeLE writes the low size bytes of v to w in little-endian order. Unlike binary.Write it
+// reports how many bytes w accepted, so that callers can return an exact count on a short write.
+func writeLE(w io.Writer, v uint64, size int) (int, error) {
+	var b [8]byte
+	binary.LittleEndian.PutUint64(b[:], v)
+	return w.Write(b[:size])
 }
 
 // Size returns the serialized size of the BlockHeader. Always equal to BlockHeaderSize.
